@@ -105,7 +105,7 @@ pub fn run(ctx: &Ctx, replay: Option<&J>) -> CheckResult {
         }
         return CheckResult { evidence: ev, rule, assumptions, violations: vs };
     }
-    let reps = ctx.n(40, 600) as usize;
+    let reps = ctx.n(40, 3000) as usize;
     let parts: Vec<(Evidence, Vec<Violation>)> = (0..=1023usize)
         .into_par_iter()
         .map(|l| {
